@@ -2,6 +2,8 @@ META = {
     "assumptions": ["allocation failure out of scope (--no-malloc-may-fail)"],
     "outside": ["whole-filesystem file preservation (paths, contents, attributes) across an e2fsck run",
                 "htree index construction (calculate_tree), write_directory, rewrite_extent_replay (writer side of the extent rebuild), pass 5",
+                "check_dir_block on a healthy block: htree / checksummed / inline / encrypted / casefolded directories, names longer than 4 bytes, blocks above 56 bytes, "
+                "subdirectories already met in an earlier block (dir_info parent pre-set), inodes flagged bad by pass 1",
                 "check_ext_attr: EA-inode values (check_large_ea_inode cut), entry hash (stubbed as matching), blocks larger than 96 bytes / more than 3 entries"],
 }
 HARNESSES = []
@@ -95,6 +97,17 @@ HARNESSES.append(
          bound="mirror of C01 calctree, GROW configs only: block size 64, 5 (two-level) and 29 (three-level) leaves, the output area is exactly root + leaves "
                "and is MOVED (old area poisoned with 0xA5) when the first interior node is appended; the rebuilt directory keeps its index: root count/limit "
                "correct in the NEW area, every leaf reachable once and in order, nothing written into the released area"))
+HARNESSES.append(
+    dict(name="dirhealthy", src="dirhealthy.c", extra_src=["lib/ext2fs/dir_iterate.c"],
+         funcs=["check_dir_block", "check_dot", "check_dotdot", "check_name", "check_filetype", "dict_de_cmp", "ext2fs_get_rec_len"],
+         configs=[{"BLK": 36, "BLOCKCNT": 0, "FT": 1}, {"BLK": 48, "BLOCKCNT": 0, "FT": 1}, {"BLK": 48, "BLOCKCNT": 1, "FT": 1},
+                  {"BLK": 56, "BLOCKCNT": 1, "FT": 0}, {"BLK": 56, "BLOCKCNT": 0, "FT": 1, "_tier": "thorough"}],
+         unwind=6, unwindset=["main.%d:60" % i for i in range(4)] + ["ext2fs_read_dir_block4.0:60", "vf_kind.0:9", "e2fsck_read_inode.0:9"] +
+                             ["ref_healthy.%d:16" % i for i in range(10)] + ["check_dir_block.0:6", "check_name.0:6", "memcmp.0:6"],
+         backends=["default", "kissat"], cap_quick=300,
+         bound="one HEALTHY directory block of 36 / 48 / 56 bytes (up to 4 entries), every byte symbolic under the well-formedness predicate; block 0 "
+               "(with . and ..) and a later block; with and without the filetype feature; live names of 1..4 arbitrary bytes; inode numbers, counts, "
+               "quota inode numbers and pass 1's per-inode knowledge (in use / type) symbolic"))
 MANIFEST = {
     "text": "Kernel-level slice (partial). Bounded-exhaustive on one fully symbolic directory block: fill_dir_block indexes exactly the live entries "
             "(minus . and .. in non-compress mode) with the right inode, size sum and parent; fill_dir_block -> copy_dir_entries preserves the multiset "
@@ -104,6 +117,8 @@ MANIFEST = {
             "region accounting keeps every well-formed 72-byte xattr block (no problem, i_file_acl kept) and reports every value overlap. "
             "duplicate_search_and_fix renames / drops an entry only when it is a duplicate in the directory's own sense (byte-identical without "
             "EXT4_CASEFOLD_FL), and e2fsck_rehash_dir installs the case-insensitive comparison iff the filesystem has an encoding AND the directory has the flag. "
+            "check_dir_block (pass 2) on one healthy plain directory block of up to 56 bytes (block 0 and later blocks, with/without filetype) raises no problem "
+            "at all, does not modify or write the block and counts every live entry exactly once (icount, subdirectory parent, ..). "
             "File preservation across a whole e2fsck run is outside.",
     "note": "Trusted: CBMC's C semantics; hash replaced by a deterministic stub (order only); alloc_size_dir cut to a static area; sorting between the "
             "two steps represented by one symbolic transposition (config SWAP).",
